@@ -330,7 +330,11 @@ class StateMachine(object):  # pylint: disable=too-many-public-methods
     def action(self, event):
         # (int) -> None
         """Execute the action triggered by event"""
-        action = self.transition_table[(event, self.current_state)]
+        action = self.transition_table.get((event, self.current_state))
+        if action is None:
+            # Combination is not defined by the standard (for example a request from local
+            # user that was queued just before association was aborted by peer). No effect.
+            return
         self.current_state = action()
 
     def ae_1(self):
